@@ -349,6 +349,9 @@ def check_C09(o, tier):
                 tot[k] = tot.get(k, 0) + v
     o.notes["crash"] = tot
     o.notes["crash_wall_s"] = round(time.time() - t0, 1)
+    # conversions of fallback tags under interruption (legacy layouts cannot be built through the API)
+    from . import p_ingest
+    p_ingest.extra_C09(o, tier)
     o.assumptions += ["process-crash model: what is on disk at the crash point is what the restarted server finds; loss of un-synced pages (power failure) is outside the claim",
                       "kernel semantics assumed, not modelled: rename is atomic, a write leaves a prefix of its bytes, CreateTemp returns an unused name",
                       "a collection is read as a sequence of independent removals: interrupted half way, every retained item must be intact (not: all or nothing)",
